@@ -542,6 +542,18 @@ example : RayOK 10 (mkGrid (⟨0, 0, 0, 1, 1, 1⟩ : Box3 ℝ) ⟨2, 2, 2⟩ fal
   norm_num at h1 ⊢
   linarith
 
+/-- both ways the drivers give a photon a direction — the constructor and `set_direction`
+(re-emission, scattering) — cache the componentwise inverse of that direction, so the `inv = 1/d`
+hypotheses of `RayOK` hold for every photon `interact` is called with, and `interactPhoton` is
+`interact` on that pair -/
+theorem photon_inverse_direction (old : PhotonDir ℝ) (d : V3 ℝ) :
+    (∀ ph : PhotonDir ℝ, ph = PhotonDir.new d ∨ ph = old.setDirection d →
+      ph.dir = d ∧ ph.inv.x = 1 / d.x ∧ ph.inv.y = 1 / d.y ∧ ph.inv.z = 1 / d.z) ∧
+    (∀ (big : ℝ) (g : Grid ℝ) (m : Medium ℝ) (p : V3 ℝ) (ph : PhotonDir ℝ) (tau : ℝ) (fuel : Nat),
+      interactPhoton big g m p ph tau fuel = interact big g m p ph.dir ph.inv tau fuel) := by
+  refine ⟨?_, fun _ _ _ _ _ _ _ => rfl⟩
+  rintro ph (rfl | rfl) <;> simp only [PhotonDir.new, PhotonDir.setDirection] <;> norm_num
+
 end Cartesian
 
 /-! ## Bucket-grid nearest neighbour (`PointLocations::get_closest_neighbour`) -/
